@@ -19,10 +19,12 @@ ZTAG = ["co:Z:{\"lib\":\"A\",\"run\":7}", "zz:Z:100%s %d {0} {}", "NM:i:1", "rg:
 def RN(i):
     """name of the i-th read: text order is the REVERSE of input order, so that equal priorities broken by record
     text can never restore the input order by accident"""
-    return f"r{100000 - i}"
+    # read names are free text: every third name keeps a FASTQ-style '@', every fifth starts with '#'
+    return ("@" if i % 3 == 2 else "#" if i % 5 == 4 else "") + f"r{100000 - i}"
 
 
 def prio_of(name):
+    name = name.lstrip("@#")
     return 100000 - int(name[1:]) if name[1:].isdigit() else 0
 
 
@@ -37,13 +39,13 @@ def make_inputs(d, R, long_at=0, bgzf_aligned=False, poison_at=0):
 
         rr = _r.Random(7)
         big = "".join(rr.choice("ACGT") for _ in range(60010))
-    with open(gfa, "w") as f:
-        f.write(f"S\ts1\t{NODE1}\tLN:i:{len(NODE1)}\tSN:Z:chr1\tSO:i:0\tSR:i:0\n")
-        f.write(f"S\ts2\t{NODE2}\tLN:i:{len(NODE2)}\tSN:Z:chr1\tSO:i:{len(NODE1)}\tSR:i:0\n")
-        f.write("L\ts1\t+\ts2\t+\t0M\n")
-        if long_at:
-            f.write(f"S\ts3\t{big}\tLN:i:{len(big)}\tSN:Z:chr1\tSO:i:{len(NODE1) + len(NODE2)}\tSR:i:0\n")
-            f.write("L\ts2\t+\ts3\t+\t0M\n")
+    from readers import write_text
+
+    gtxt = (f"S\ts1\t{NODE1}\tLN:i:{len(NODE1)}\tSN:Z:chr1\tSO:i:0\tSR:i:0\n"
+            f"S\ts2\t{NODE2}\tLN:i:{len(NODE2)}\tSN:Z:chr1\tSO:i:{len(NODE1)}\tSR:i:0\n" + "L\ts1\t+\ts2\t+\t0M\n")
+    if long_at:
+        gtxt += f"S\ts3\t{big}\tLN:i:{len(big)}\tSN:Z:chr1\tSO:i:{len(NODE1) + len(NODE2)}\tSR:i:0\n" + "L\ts2\t+\ts3\t+\t0M\n"
+    write_text(gfa, gtxt)
     path = NODE1 + NODE2
     fa = os.path.join(d, "reads.fa")
     gaf = os.path.join(d, "a.gaf")
